@@ -95,8 +95,12 @@ const IV: Label = Label::Int(iana::HeaderParameter::Iv as i64);
 const PARTIAL_IV: Label = Label::Int(iana::HeaderParameter::PartialIv as i64);
 const COUNTER_SIG: Label = Label::Int(iana::HeaderParameter::CounterSignature as i64);
 
-impl AsCborValue for Header {
-    fn from_cbor_value(value: Value) -> Result<Self> {
+/// Maximum nesting depth of protected headers (reached via counter-signatures) that is parsed.
+const MAX_PROTECTED_NESTING: usize = 16;
+
+impl Header {
+    /// Variant of `from_cbor_value` that tracks how many protected headers enclose this one.
+    pub(crate) fn from_cbor_value_nested(value: Value, depth: usize) -> Result<Self> {
         let m = value.try_as_map()?;
         let mut headers = Self::default();
         let mut seen = BTreeSet::new();
@@ -178,14 +182,19 @@ impl AsCborValue for Header {
                     // - If it's a bstr, sig_or_sigs is a single signature.
                     // - If it's an array, sig_or_sigs is an array of signatures
                     match &sig_or_sigs[0] {
-                        Value::Bytes(_) => headers
-                            .counter_signatures
-                            .push(CoseSignature::from_cbor_value(Value::Array(sig_or_sigs))?),
+                        Value::Bytes(_) => {
+                            headers
+                                .counter_signatures
+                                .push(CoseSignature::from_cbor_value_nested(
+                                    Value::Array(sig_or_sigs),
+                                    depth,
+                                )?)
+                        }
                         Value::Array(_) => {
                             for sig in sig_or_sigs.into_iter() {
                                 headers
                                     .counter_signatures
-                                    .push(CoseSignature::from_cbor_value(sig)?);
+                                    .push(CoseSignature::from_cbor_value_nested(sig, depth)?);
                             }
                         }
                         v => return cbor_type_error(v, "array or bstr value"),
@@ -204,6 +213,12 @@ impl AsCborValue for Header {
             }
         }
         Ok(headers)
+    }
+}
+
+impl AsCborValue for Header {
+    fn from_cbor_value(value: Value) -> Result<Self> {
+        Self::from_cbor_value_nested(value, 0)
     }
 
     fn to_cbor_value(mut self) -> Result<Value> {
@@ -357,12 +372,22 @@ impl ProtectedHeader {
     /// Constructor from a [`Value`] that holds a `bstr` encoded header.
     #[inline]
     pub fn from_cbor_bstr(val: Value) -> Result<Self> {
+        Self::from_cbor_bstr_nested(val, 0)
+    }
+
+    /// Variant of `from_cbor_bstr` that tracks how many protected headers enclose this one.
+    pub(crate) fn from_cbor_bstr_nested(val: Value, depth: usize) -> Result<Self> {
         let data = val.try_as_bytes()?;
         let header = if data.is_empty() {
             // An empty bstr is used as a short cut for an empty header map.
             Header::default()
+        } else if depth >= MAX_PROTECTED_NESTING {
+            return Err(CoseError::UnexpectedItem(
+                "deeply nested protected header",
+                "protected header nesting within limit",
+            ));
         } else {
-            Header::from_slice(&data)?
+            Header::from_cbor_value_nested(Value::from_slice(&data)?, depth + 1)?
         };
         Ok(ProtectedHeader {
             original_data: Some(data),
